@@ -330,12 +330,17 @@ theorem writeBufs_tapeX (g : Geom) (bufs : List Bytes) : ∀ {l : Log} {D : Imag
 
 /-- the files `F, F+1, …` of `X` are full-size and hold `Pm` followed by zeros, `Pm` ends in the
     last of them (or at its very end); the next file may exist, empty -/
-def RTape (g : Geom) (F : Nat) (Pm : Bytes) (X : Image) : Prop :=
+def RTape (g : Geom) (F lo : Nat) (Pm : Bytes) (X : Image) : Prop :=
   ∃ (cs : List Bytes) (x : Bool), cs ≠ [] ∧ (∀ c ∈ cs, c.length = g.fileBytes) ∧
     (∃ z, cs.flatten = Pm ++ zeros z) ∧ X = imgOf F cs ++ xtra x (F + cs.length) ∧
-    (cs.length - 1) * g.fileBytes ≤ Pm.length
+    (cs.length - 1) * g.fileBytes ≤ Pm.length ∧ lo ≤ cs.length
 
-theorem RTape.ctape {g : Geom} {F : Nat} {Pm : Bytes} {X : Image} (h : RTape g F Pm X) : CTape g F Pm X := by
+theorem RTape.mono {g : Geom} {F lo lo' : Nat} {Pm : Bytes} {X : Image} (h : RTape g F lo Pm X) (hl : lo' ≤ lo) :
+    RTape g F lo' Pm X := by
+  obtain ⟨cs, x, h1, h2, h3, h4, h5, h6⟩ := h
+  exact ⟨cs, x, h1, h2, h3, h4, h5, Nat.le_trans hl h6⟩
+
+theorem RTape.ctape {g : Geom} {F lo : Nat} {Pm : Bytes} {X : Image} (h : RTape g F lo Pm X) : CTape g F Pm X := by
   obtain ⟨cs, x, h1, h2, h3, h4, _⟩ := h
   refine ⟨cs, h1, h2, h3, ?_⟩
   cases x
@@ -353,9 +358,9 @@ theorem tapeX_chunks {g : Geom} {l : Log} {D : Image} {F : Nat} {init : List Byt
     rw [hc]; simp [h.tlen]; omega
 
 theorem rtape_of_tapeX {g : Geom} {l : Log} {D : Image} {F : Nat} {init : List Bytes} {t : Bytes} {x : Bool}
-    (h : TapeX g l D F init t x) : RTape g F (init.flatten ++ t) D := by
+    (h : TapeX g l D F init t x) : RTape g F (init.length + 1) (init.flatten ++ t) D := by
   refine ⟨init ++ [t ++ zeros (g.fileBytes - l.off)], x, by simp, tapeX_chunks h,
-    ⟨g.fileBytes - l.off, by simp⟩, ?_, ?_⟩
+    ⟨g.fileBytes - l.off, by simp⟩, ?_, ?_, by simp⟩
   · rw [h.img]; simp [Nat.add_assoc]
   · rw [h.P_length]; simp
 
@@ -371,7 +376,7 @@ theorem roll_tail (g : Geom) (F : Nat) (cs : List Bytes) (hne : cs ≠ []) (hful
     (buf : Bytes) (hbl : buf.length ≤ g.fileBytes) (e5 : Effect)
     (he5 : e5 = .setLen (F + cs.length) g.fileBytes ∨ e5 = .ensureLen (F + cs.length) g.fileBytes)
     {w : Bool} {X : Image} (hX : CutW w (imgOf F (cs ++ [[]])) [e5, .write (F + cs.length) 0 buf] X) :
-    ∃ m, RTape g F (cs.flatten ++ buf.take m) X ∧ (w = true → m = 0 ∨ buf.length ≤ m) := by
+    ∃ m, RTape g F cs.length (cs.flatten ++ buf.take m) X ∧ (w = true → m = 0 ∨ buf.length ≤ m) := by
   have hfb := fileBytes_pos g
   have hPl : cs.flatten.length = cs.length * g.fileBytes := flatten_length_full _ _ hfull
   have h5 : applyOsOps (imgOf F (cs ++ [[]])) (direct e5) = imgOf F (cs ++ [zeros g.fileBytes]) := by
@@ -389,16 +394,16 @@ theorem roll_tail (g : Geom) (F : Nat) (cs : List Bytes) (hne : cs ≠ []) (hful
     simp only [List.nil_append, List.length_nil] at hov
     simp only [applyOs]
     rw [mapFile_last, hov]
-  have hres : ∀ c, RTape g F (cs.flatten ++ buf.take c)
+  have hres : ∀ c, RTape g F cs.length (cs.flatten ++ buf.take c)
       (imgOf F (cs ++ [buf.take c ++ zeros (g.fileBytes - (buf.take c).length)])) := by
     intro c
     have hcl : (buf.take c).length ≤ g.fileBytes := by simp; omega
     refine ⟨cs ++ [buf.take c ++ zeros (g.fileBytes - (buf.take c).length)], false, by simp,
-      full_snoc hfull (by simp; omega), ⟨g.fileBytes - (buf.take c).length, by simp⟩, by simp [xtra], ?_⟩
+      full_snoc hfull (by simp; omega), ⟨g.fileBytes - (buf.take c).length, by simp⟩, by simp [xtra], ?_, by simp⟩
     simp only [List.length_append, List.length_cons, List.length_nil, Nat.zero_add, Nat.add_sub_cancel, hPl]
     omega
   rcases hX.cons_inv with h1 | ⟨_, _, _, _, _, hw1, _⟩ | hX
-  · refine ⟨0, ⟨cs, true, hne, hfull, ⟨0, by simp [zeros]⟩, ?_, ?_⟩, fun _ => Or.inl rfl⟩
+  · refine ⟨0, ⟨cs, true, hne, hfull, ⟨0, by simp [zeros]⟩, ?_, ?_, Nat.le_refl _⟩, fun _ => Or.inl rfl⟩
     · rw [h1, imgOf_snoc]; rfl
     · simp only [List.take_zero, List.append_nil, hPl]
       exact Nat.mul_le_mul_right _ (Nat.sub_le _ _)
@@ -426,13 +431,20 @@ theorem roll_tail (g : Geom) (F : Nat) (cs : List Bytes) (hne : cs ≠ []) (hful
 theorem writeBuf_cutW (g : Geom) {l : Log} {D : Image} {F : Nat} {init : List Bytes} {t : Bytes} {x : Bool}
     (h : TapeX g l D F init t x) (buf : Bytes) (hne : buf ≠ []) (hnc : l.off % g.B + buf.length ≤ g.B)
     {w : Bool} {X : Image} (hX : CutW w D (writeBuf g l buf).2 X) :
-    ∃ m, RTape g F (init.flatten ++ t ++ buf.take m) X ∧ (w = true → m = 0 ∨ buf.length ≤ m) := by
+    ∃ m, RTape g F (init.length + 1) (init.flatten ++ t ++ buf.take m) X ∧ (w = true → m = 0 ∨ buf.length ≤ m) := by
   have hlen : 0 < buf.length := List.length_pos_iff.mpr hne
-  obtain ⟨i', t', x', hT', hP', _, _⟩ := writeBuf_tapeX g h buf hne hnc
-  have hfull : ∃ m, RTape g F (init.flatten ++ t ++ buf.take m)
+  obtain ⟨i', t', x', hT', hP', hcurA, _⟩ := writeBuf_tapeX g h buf hne hnc
+  have hmonoI : init.length ≤ i'.length := by
+    have h1 := hT'.cur
+    rw [hcurA, h.P_length] at h1
+    have : init.length ≤ (init.length * g.fileBytes + l.off) / g.fileBytes := by
+      rw [Nat.le_div_iff_mul_le (fileBytes_pos g)]; omega
+    omega
+  have hfull : ∃ m, RTape g F (init.length + 1) (init.flatten ++ t ++ buf.take m)
       (applyOsOps D (directOps (writeBuf g l buf).2)) ∧ (w = true → m = 0 ∨ buf.length ≤ m) :=
-    ⟨buf.length, by rw [List.take_length, ← hP']; exact rtape_of_tapeX hT', fun _ => Or.inr (Nat.le_refl _)⟩
-  have hnone : ∃ m, RTape g F (init.flatten ++ t ++ buf.take m) D ∧ (w = true → m = 0 ∨ buf.length ≤ m) :=
+    ⟨buf.length, by rw [List.take_length, ← hP']; exact (rtape_of_tapeX hT').mono (by omega),
+      fun _ => Or.inr (Nat.le_refl _)⟩
+  have hnone : ∃ m, RTape g F (init.length + 1) (init.flatten ++ t ++ buf.take m) D ∧ (w = true → m = 0 ∨ buf.length ≤ m) :=
     ⟨0, by simpa using rtape_of_tapeX h, fun _ => Or.inl rfl⟩
   by_cases hroll : l.off + buf.length > g.fileBytes
   · have hfullf : l.off = g.fileBytes := by
@@ -478,7 +490,7 @@ theorem writeBuf_cutW (g : Geom) {l : Log} {D : Image} {F : Nat} {init : List By
       simp only [direct, applyOsOps, List.foldl_nil, List.foldl_cons, applyOs] at hX
       rw [hD, hnum, insertFile_end] at hX
       obtain ⟨m, hm, hmw⟩ := roll_tail g F (init ++ [t]) (by simp) hfullcs buf hbl _ (Or.inl rfl) hX
-      exact ⟨m, by rw [← hflat]; exact hm, hmw⟩
+      exact ⟨m, by rw [← hflat]; exact hm.mono (by simp), hmw⟩
     | true =>
       have hnf : nextFile l.files l.cur = some (l.cur + 1) := by
         have := h.files
@@ -496,7 +508,7 @@ theorem writeBuf_cutW (g : Geom) {l : Log} {D : Image} {F : Nat} {init : List By
       simp only [direct, applyOsOps, List.foldl_nil] at hX
       rw [hD, hnum] at hX
       obtain ⟨m, hm, hmw⟩ := roll_tail g F (init ++ [t]) (by simp) hfullcs buf hbl _ (Or.inr rfl) hX
-      exact ⟨m, by rw [← hflat]; exact hm, hmw⟩
+      exact ⟨m, by rw [← hflat]; exact hm.mono (by simp), hmw⟩
   · rw [writeBuf_noroll g l buf hne hroll] at hX hfull
     rcases hX.cons_inv with h1 | ⟨hwf, f, off, d, c, hw1, h1⟩ | hX
     · rw [h1]; exact hnone
@@ -507,7 +519,7 @@ theorem writeBuf_cutW (g : Geom) {l : Log} {D : Image} {F : Nat} {init : List By
       rw [h.img, mapFile_append, mapFile_notin (xtra x _) _ _ (xtra_keys x _ _ (by rw [h.cur]; omega)), h.cur,
         mapFile_last, ← h.tlen, overwrite_tail t _ _ (by rw [h.tlen]; exact hcl)] at h1
       refine ⟨c, ⟨init ++ [t ++ buf.take c ++ zeros (g.fileBytes - t.length - (buf.take c).length)], x, by simp,
-        ?_, ⟨g.fileBytes - t.length - (buf.take c).length, by simp⟩, ?_, ?_⟩,
+        ?_, ⟨g.fileBytes - t.length - (buf.take c).length, by simp⟩, ?_, ?_, by simp⟩,
         fun hwt => by rw [hwf] at hwt; cases hwt⟩
       · apply full_snoc h.full
         simp only [List.length_append, length_zeros]
@@ -526,7 +538,7 @@ theorem writeBuf_cutW (g : Geom) {l : Log} {D : Image} {F : Nat} {init : List By
 theorem writeBufs_cutW (g : Geom) (bufs : List Bytes) : ∀ {l : Log} {D : Image} {F : Nat}
     {init : List Bytes} {t : Bytes} {x : Bool}, TapeX g l D F init t x → NoCross g (l.off % g.B) bufs →
     ∀ {w : Bool} {X : Image}, CutW w D (writeBufs g l bufs).2 X →
-    ∃ Pm, RTape g F Pm X ∧ PrefixCut (init.flatten ++ t) (init.flatten ++ t ++ bufs.flatten) Pm ∧
+    ∃ Pm, RTape g F (init.length + 1) Pm X ∧ PrefixCut (init.flatten ++ t) (init.flatten ++ t ++ bufs.flatten) Pm ∧
       (w = true → ∃ j, j ≤ bufs.length ∧ Pm = init.flatten ++ t ++ (bufs.take j).flatten) := by
   induction bufs with
   | nil =>
@@ -550,13 +562,305 @@ theorem writeBufs_cutW (g : Geom) (bufs : List Bytes) : ∀ {l : Log} {D : Image
         rcases hmw hw with h0 | h0
         · exact ⟨0, Nat.zero_le _, by rw [h0]; simp⟩
         · exact ⟨1, by simp, by rw [List.take_of_length_le h0]; simp⟩
-    · obtain ⟨i1, t1, x1, ht1, hp1, _, hc1⟩ := writeBuf_tapeX g h b hne h2
+    · obtain ⟨i1, t1, x1, ht1, hp1, hcurA, hc1⟩ := writeBuf_tapeX g h b hne h2
+      have hmonoI : init.length ≤ i1.length := by
+        have h1 := ht1.cur
+        rw [hcurA, h.P_length] at h1
+        have : init.length ≤ (init.length * g.fileBytes + l.off) / g.fileBytes := by
+          rw [Nat.le_div_iff_mul_le (fileBytes_pos g)]; omega
+        omega
       rw [← hc1] at h3
       obtain ⟨Pm, hc, hp, hpw⟩ := ih ht1 h3 hX
-      refine ⟨Pm, hc, ?_, ?_⟩
+      refine ⟨Pm, hc.mono (by omega), ?_, ?_⟩
       · rw [hp1] at hp
         have := hp.shift
         simpa [List.append_assoc] using this
+      · intro hw
+        obtain ⟨j, hj, hPm⟩ := hpw hw
+        refine ⟨j + 1, by simpa using hj, ?_⟩
+        rw [hPm, hp1]; simp [List.append_assoc]
+
+/-! ### a residue at the writer's position
+
+A header write cut in the very last block leaves at most 6 junk bytes where the writer stands (the
+reader stops in front of them); the next frame overwrites them. -/
+
+structure TapeR (g : Geom) (l : Log) (D : Image) (F : Nat) (init : List Bytes) (t : Bytes) (x : Bool)
+    (res : Bytes) : Prop where
+  img : D = imgOf F (init ++ [t ++ (res ++ zeros (g.fileBytes - l.off - res.length))]) ++
+    xtra x (F + init.length + 1)
+  full : ∀ c ∈ init, c.length = g.fileBytes
+  tlen : t.length = l.off
+  resle : l.off + res.length ≤ g.fileBytes
+  files : l.files = List.range' F (init.length + 1 + (if x then 1 else 0))
+  cur : l.cur = F + init.length
+
+theorem TapeR.off_le {g : Geom} {l : Log} {D : Image} {F : Nat} {init : List Bytes} {t : Bytes} {x : Bool}
+    {res : Bytes} (h : TapeR g l D F init t x res) : l.off ≤ g.fileBytes := by have := h.resle; omega
+
+/-- the same tape with the residue wiped -/
+theorem TapeR.zero {g : Geom} {l : Log} {D : Image} {F : Nat} {init : List Bytes} {t : Bytes} {x : Bool}
+    {res : Bytes} (h : TapeR g l D F init t x res) :
+    TapeX g l (imgOf F (init ++ [t ++ zeros (g.fileBytes - l.off)]) ++ xtra x (F + init.length + 1)) F init t x :=
+  ⟨rfl, h.full, h.tlen, h.off_le, h.files, h.cur⟩
+
+theorem TapeR.of_tapeX {g : Geom} {l : Log} {D : Image} {F : Nat} {init : List Bytes} {t : Bytes} {x : Bool}
+    (h : TapeX g l D F init t x) : TapeR g l D F init t x [] :=
+  ⟨by simpa using h.img, h.full, h.tlen, by simpa using h.off_le, h.files, h.cur⟩
+
+theorem TapeR.to_tapeX {g : Geom} {l : Log} {D : Image} {F : Nat} {init : List Bytes} {t : Bytes} {x : Bool}
+    (h : TapeR g l D F init t x []) : TapeX g l D F init t x :=
+  ⟨by simpa using h.img, h.full, h.tlen, h.off_le, h.files, h.cur⟩
+
+theorem TapeR.P_length {g : Geom} {l : Log} {D : Image} {F : Nat} {init : List Bytes} {t : Bytes} {x : Bool}
+    {res : Bytes} (h : TapeR g l D F init t x res) :
+    (init.flatten ++ t).length = init.length * g.fileBytes + l.off := by
+  rw [List.length_append, flatten_length_full _ _ h.full, h.tlen]
+
+theorem TapeR.congr {g : Geom} {l l' : Log} {D : Image} {F : Nat} {init : List Bytes} {t : Bytes} {x : Bool}
+    {res : Bytes} (h : TapeR g l D F init t x res) (hf : l'.files = l.files) (hc : l'.cur = l.cur)
+    (ho : l'.off = l.off) : TapeR g l' D F init t x res :=
+  ⟨by rw [ho]; exact h.img, h.full, by rw [ho]; exact h.tlen, by rw [ho]; exact h.resle,
+    by rw [hf]; exact h.files, by rw [hc]; exact h.cur⟩
+
+theorem TapeR.head {g : Geom} {l : Log} {D : Image} {F : Nat} {init : List Bytes} {t : Bytes} {x : Bool}
+    {res : Bytes} (h : TapeR g l D F init t x res) : l.files.headD 0 = F := by
+  rw [h.files, show init.length + 1 + (if x then 1 else 0) = (init.length + (if x then 1 else 0)) + 1 by omega,
+    List.range'_succ]; rfl
+
+theorem overwrite_mid (t Y b : Bytes) : overwrite (t ++ Y) t.length b = t ++ b ++ Y.drop b.length := by
+  unfold overwrite
+  have h1 : ¬ (t ++ Y).length < t.length := by simp
+  simp only [h1, if_false]
+  rw [List.take_left' rfl, ← List.drop_drop, List.drop_left' rfl]
+
+theorem drop_res_zeros (res : Bytes) (r m : Nat) :
+    (res ++ zeros r).drop m = res.drop m ++ zeros (r - (m - res.length)) := by
+  rw [List.drop_append, drop_zeros]
+
+/-- the last chunk after writing `b` over the residue -/
+theorem write_over_res (g : Geom) {l : Log} {D : Image} {F : Nat} {init : List Bytes} {t : Bytes} {x : Bool}
+    {res : Bytes} (h : TapeR g l D F init t x res) (b : Bytes) :
+    applyOs D (.write l.cur l.off b) =
+      imgOf F (init ++ [t ++ b ++ (res ++ zeros (g.fileBytes - l.off - res.length)).drop b.length]) ++
+        xtra x (F + init.length + 1) := by
+  simp only [applyOs]
+  rw [h.img, mapFile_append, mapFile_notin (xtra x _) _ _ (xtra_keys x _ _ (by rw [h.cur]; omega)), h.cur,
+    mapFile_last, ← h.tlen, overwrite_mid]
+
+/-- files `F …` of `X`: `n` of them, full-size, holding `Pm`, the residue, zeros -/
+def RTapeR (g : Geom) (F n : Nat) (Pm res : Bytes) (X : Image) : Prop :=
+  ∃ (cs : List Bytes) (x : Bool), cs.length = n ∧ 0 < n ∧ (∀ c ∈ cs, c.length = g.fileBytes) ∧
+    (∃ z, cs.flatten = Pm ++ res ++ zeros z) ∧ X = imgOf F cs ++ xtra x (F + n) ∧
+    (n - 1) * g.fileBytes ≤ Pm.length
+
+theorem RTapeR.of_rtape {g : Geom} {F lo : Nat} {Pm : Bytes} {X : Image} (h : RTape g F lo Pm X) :
+    ∃ n, lo ≤ n ∧ RTapeR g F n Pm [] X := by
+  obtain ⟨cs, x, h1, h2, ⟨z, h3⟩, h4, h5, h6⟩ := h
+  exact ⟨cs.length, h6, cs, x, rfl, List.length_pos_iff.mpr h1, h2, ⟨z, by simpa using h3⟩, h4, h5⟩
+
+theorem tapeR_chunks {g : Geom} {l : Log} {D : Image} {F : Nat} {init : List Bytes} {t : Bytes} {x : Bool}
+    {res : Bytes} (h : TapeR g l D F init t x res) :
+    ∀ c ∈ init ++ [t ++ (res ++ zeros (g.fileBytes - l.off - res.length))], c.length = g.fileBytes := by
+  apply full_snoc h.full
+  have := h.resle
+  simp [h.tlen]; omega
+
+theorem rtapeR_of_tapeR {g : Geom} {l : Log} {D : Image} {F : Nat} {init : List Bytes} {t : Bytes} {x : Bool}
+    {res : Bytes} (h : TapeR g l D F init t x res) : RTapeR g F (init.length + 1) (init.flatten ++ t) res D := by
+  refine ⟨init ++ [t ++ (res ++ zeros (g.fileBytes - l.off - res.length))], x, by simp, by omega, tapeR_chunks h,
+    ⟨g.fileBytes - l.off - res.length, by simp⟩, ?_, ?_⟩
+  · rw [h.img]; simp [Nat.add_assoc]
+  · rw [h.P_length]; simp
+
+/-- one buffer at least as long as the residue -/
+theorem writeBuf_tapeR (g : Geom) {l : Log} {D : Image} {F : Nat} {init : List Bytes} {t : Bytes} {x : Bool}
+    {res : Bytes} (h : TapeR g l D F init t x res) (buf : Bytes) (hne : buf ≠ [])
+    (hnc : l.off % g.B + buf.length ≤ g.B) (hres : res.length ≤ buf.length) :
+    ∃ init' t' x', TapeX g (writeBuf g l buf).1 (applyOsOps D (directOps (writeBuf g l buf).2)) F init' t' x' ∧
+      init'.flatten ++ t' = init.flatten ++ t ++ buf ∧
+      (writeBuf g l buf).1.cur = F + (init.flatten ++ t).length / g.fileBytes ∧
+      (writeBuf g l buf).1.off % g.B = adv g (l.off % g.B) buf.length := by
+  by_cases hr : res = []
+  · subst hr; exact writeBuf_tapeX g h.to_tapeX buf hne hnc
+  · have hrl : 0 < res.length := List.length_pos_iff.mpr hr
+    have hlt : l.off < g.fileBytes := by have := h.resle; omega
+    have hfit := fits_file g l.off buf.length hlt hnc
+    have hroll : ¬ l.off + buf.length > g.fileBytes := by omega
+    obtain ⟨i', t', x', a1, a2, a3, a4⟩ := writeBuf_tapeX g h.zero buf hne hnc
+    refine ⟨i', t', x', ?_, a2, a3, a4⟩
+    have himg : applyOsOps D (directOps (writeBuf g l buf).2) =
+        applyOsOps (imgOf F (init ++ [t ++ zeros (g.fileBytes - l.off)]) ++ xtra x (F + init.length + 1))
+          (directOps (writeBuf g l buf).2) := by
+      rw [writeBuf_noroll g l buf hne hroll]
+      simp only [directOps, List.flatMap_cons, List.flatMap_nil, direct, List.append_nil, applyOsOps,
+        List.foldl_cons, List.foldl_nil]
+      rw [write_over_res g h buf, write_over_res g (TapeR.of_tapeX h.zero) buf]
+      congr 4
+      rw [drop_res_zeros, drop_res_zeros, List.drop_of_length_le hres]
+      simp only [List.drop_nil, List.nil_append, List.length_nil, Nat.sub_zero]
+      have := h.resle
+      have e : g.fileBytes - l.off - res.length - (buf.length - res.length) = g.fileBytes - l.off - buf.length := by
+        omega
+      rw [e]
+    rw [himg]; exact a1
+
+/-- crash states of one buffer written over a residue -/
+theorem writeBuf_cutR (g : Geom) {l : Log} {D : Image} {F : Nat} {init : List Bytes} {t : Bytes} {x : Bool}
+    {res : Bytes} (h : TapeR g l D F init t x res) (buf : Bytes) (hne : buf ≠ [])
+    (hnc : l.off % g.B + buf.length ≤ g.B) (hres : res.length ≤ buf.length)
+    {w : Bool} {X : Image} (hX : CutW w D (writeBuf g l buf).2 X) :
+    ∃ m n, RTapeR g F n (init.flatten ++ t ++ buf.take m) (res.drop m) X ∧
+      (w = true → m = 0 ∨ buf.length ≤ m) ∧ (res.drop m ≠ [] → n = init.length + 1) ∧ init.length + 1 ≤ n := by
+  by_cases hr : res = []
+  · subst hr
+    obtain ⟨m, hm, hmw⟩ := writeBuf_cutW g h.to_tapeX buf hne hnc hX
+    obtain ⟨n, hln, hn⟩ := RTapeR.of_rtape hm
+    exact ⟨m, n, by simpa using hn, hmw, fun hd => by simp at hd, hln⟩
+  · have hrl : 0 < res.length := List.length_pos_iff.mpr hr
+    have hlt : l.off < g.fileBytes := by have := h.resle; omega
+    have hfit := fits_file g l.off buf.length hlt hnc
+    have hroll : ¬ l.off + buf.length > g.fileBytes := by omega
+    have hpart : ∀ c, RTapeR g F (init.length + 1) (init.flatten ++ t ++ buf.take c) (res.drop (min c buf.length))
+        (applyOs D (.write l.cur l.off (buf.take c))) := by
+      intro c
+      rw [write_over_res g h (buf.take c)]
+      have hcl : (buf.take c).length = min c buf.length := List.length_take
+      have hrs := h.resle
+      refine ⟨init ++ [t ++ buf.take c ++ (res ++ zeros (g.fileBytes - l.off - res.length)).drop (buf.take c).length],
+        x, by simp, by omega, ?_, ⟨g.fileBytes - l.off - res.length - ((buf.take c).length - res.length), ?_⟩,
+        by simp [Nat.add_assoc], ?_⟩
+      · apply full_snoc h.full
+        simp only [List.length_append, List.length_drop, length_zeros, h.tlen, hcl]
+        omega
+      · rw [drop_res_zeros, hcl]; simp [List.append_assoc]
+      · have := h.P_length
+        simp only [List.length_append, List.length_cons, List.length_nil, Nat.zero_add, Nat.add_sub_cancel] at this ⊢
+        omega
+    rw [writeBuf_noroll g l buf hne hroll] at hX
+    rcases hX.cons_inv with h1 | ⟨hwf, f, off, d, c, hw1, h1⟩ | hX
+    · refine ⟨0, init.length + 1, ?_, fun _ => Or.inl rfl, fun _ => rfl, Nat.le_refl _⟩
+      rw [h1]; simpa using rtapeR_of_tapeR h
+    · injection hw1 with e1 e2 e3
+      subst e1 e2 e3
+      refine ⟨min c buf.length, init.length + 1, ?_, (fun hwt => by rw [hwf] at hwt; cases hwt), fun _ => rfl,
+        Nat.le_refl _⟩
+      rw [h1]
+      have := hpart c
+      rwa [show buf.take (min c buf.length) = buf.take c by
+        rw [List.take_eq_take_iff]; simp [Nat.min_assoc]]
+    · have h1 := hX.nil_inv
+      simp only [direct, applyOsOps, List.foldl_cons, List.foldl_nil] at h1
+      refine ⟨buf.length, init.length + 1, ?_, fun _ => Or.inr (Nat.le_refl _), fun _ => rfl, Nat.le_refl _⟩
+      rw [h1]
+      have := hpart buf.length
+      simpa only [List.take_length, Nat.min_self] using this
+
+/-- a list of buffers, the first one at least as long as the residue -/
+theorem writeBufs_tapeR (g : Geom) (bufs : List Bytes) {l : Log} {D : Image} {F : Nat}
+    {init : List Bytes} {t : Bytes} {x : Bool} {res : Bytes} (h : TapeR g l D F init t x res)
+    (hnc : NoCross g (l.off % g.B) bufs) (hres : ∀ b bs, bufs = b :: bs → res.length ≤ b.length) :
+    ∃ init' t' x' res', TapeR g (writeBufs g l bufs).1 (applyOsOps D (directOps (writeBufs g l bufs).2)) F
+        init' t' x' res' ∧
+      init'.flatten ++ t' = init.flatten ++ t ++ bufs.flatten ∧
+      (bufs ≠ [] → res' = []) ∧
+      (bufs ≠ [] → (writeBufs g l bufs).1.cur =
+        F + ((init.flatten ++ t).length + totalLen bufs.dropLast) / g.fileBytes) := by
+  cases bufs with
+  | nil =>
+    exact ⟨init, t, x, res, by simpa [writeBufs, directOps, applyOsOps] using h, by simp,
+      fun h => absurd rfl h, fun h => absurd rfl h⟩
+  | cons b bs =>
+    obtain ⟨h1, h2, h3⟩ := hnc
+    have hne : b ≠ [] := by intro e; rw [e] at h1; simp at h1
+    obtain ⟨i1, t1, x1, ht1, hp1, hcur1, hc1⟩ := writeBuf_tapeR g h b hne h2 (hres b bs rfl)
+    rw [← hc1] at h3
+    obtain ⟨i2, t2, x2, ht2, hp2, hcur2⟩ := writeBufs_tapeX g bs ht1 h3
+    refine ⟨i2, t2, x2, [], ?_, ?_, fun _ => rfl, ?_⟩
+    · rw [Step.writeBufs_cons]
+      simp only [directOps_append, applyOsOps_append]
+      exact TapeR.of_tapeX ht2
+    · rw [hp2, hp1]; simp [List.append_assoc]
+    · intro _
+      rw [Step.writeBufs_cons]
+      simp only
+      cases bs with
+      | nil =>
+        simp only [writeBufs, List.dropLast_singleton, totalLen_nil, Nat.add_zero]
+        exact hcur1
+      | cons b2 bs2 =>
+        rw [hcur2 (by simp), hp1, List.dropLast_cons_cons, totalLen_cons, List.length_append]
+        congr 2; omega
+
+/-- crash states of a list of buffers -/
+theorem writeBufs_cutR (g : Geom) (bufs : List Bytes) {l : Log} {D : Image} {F : Nat}
+    {init : List Bytes} {t : Bytes} {x : Bool} {res : Bytes} (h : TapeR g l D F init t x res)
+    (hnc : NoCross g (l.off % g.B) bufs) (hres : ∀ b bs, bufs = b :: bs → res.length ≤ b.length)
+    {w : Bool} {X : Image} (hX : CutW w D (writeBufs g l bufs).2 X) :
+    ∃ Pm n res', RTapeR g F n Pm res' X ∧
+      PrefixCut (init.flatten ++ t) (init.flatten ++ t ++ bufs.flatten) Pm ∧
+      res' = res.drop (Pm.length - (init.flatten ++ t).length) ∧
+      (res' ≠ [] → n = init.length + 1) ∧ init.length + 1 ≤ n ∧
+      (w = true → ∃ j, j ≤ bufs.length ∧ Pm = init.flatten ++ t ++ (bufs.take j).flatten) := by
+  cases bufs with
+  | nil =>
+    have : X = D := by simpa [writeBufs] using hX.nil_inv
+    rw [this]
+    refine ⟨_, _, res, rtapeR_of_tapeR h, ⟨(init.flatten ++ t).length, Nat.le_refl _, by simp, ?_⟩, by simp,
+      fun _ => rfl, Nat.le_refl _, fun _ => ⟨0, Nat.le_refl _, by simp⟩⟩
+    simp only [List.flatten_nil, List.append_nil, List.take_length]
+  | cons b bs =>
+    obtain ⟨h1, h2, h3⟩ := hnc
+    have hne : b ≠ [] := by intro e; rw [e] at h1; simp at h1
+    rw [Step.writeBufs_cons] at hX
+    rcases CutW.of_append _ hX with hX | hX
+    · obtain ⟨m, n, hm, hmw, hmn, hln⟩ := writeBuf_cutR g h b hne h2 (hres b bs rfl) hX
+      by_cases hmb : m ≤ b.length
+      · refine ⟨_, n, _, hm, ?_, ?_, hmn, hln, ?_⟩
+        · have := (PrefixCut.take (init.flatten ++ t) b m).extend bs.flatten
+          simpa [List.append_assoc] using this
+        · congr 1
+          simp only [List.length_append, List.length_take]
+          omega
+        · intro hw
+          rcases hmw hw with h0 | h0
+          · exact ⟨0, Nat.zero_le _, by rw [h0]; simp⟩
+          · exact ⟨1, by simp, by rw [List.take_of_length_le h0]; simp⟩
+      · have hbm : b.length ≤ m := by omega
+        have hrd : res.drop m = [] := List.drop_of_length_le (Nat.le_trans (hres b bs rfl) hbm)
+        rw [hrd] at hm
+        rw [List.take_of_length_le hbm] at hm
+        refine ⟨_, n, [], hm, ?_, ?_, fun hd => absurd rfl hd, hln, fun _ => ⟨1, by simp, by simp⟩⟩
+        · have := (PrefixCut.take (init.flatten ++ t) b b.length).extend bs.flatten
+          simpa [List.append_assoc] using this
+        · symm
+          apply List.drop_of_length_le
+          simp only [List.length_append]
+          have := hres b bs rfl
+          omega
+    · obtain ⟨i1, t1, x1, ht1, hp1, hcurA, hc1⟩ := writeBuf_tapeR g h b hne h2 (hres b bs rfl)
+      have hmonoI : init.length ≤ i1.length := by
+        have h1 := ht1.cur
+        rw [hcurA, h.P_length] at h1
+        have : init.length ≤ (init.length * g.fileBytes + l.off) / g.fileBytes := by
+          rw [Nat.le_div_iff_mul_le (fileBytes_pos g)]; omega
+        omega
+      rw [← hc1] at h3
+      obtain ⟨Pm, hc, hp, hpw⟩ := writeBufs_cutW g bs ht1 h3 hX
+      obtain ⟨n, hln, hn⟩ := RTapeR.of_rtape hc
+      have hple : (init.flatten ++ t ++ b).length ≤ Pm.length := by
+        obtain ⟨m0, q1, q2, q3⟩ := hp
+        rw [hp1] at q1
+        rw [q3, List.length_take]; omega
+      refine ⟨Pm, n, [], hn, ?_, ?_, fun hd => absurd rfl hd, by omega, ?_⟩
+      · rw [hp1] at hp
+        have := hp.shift
+        simpa [List.append_assoc] using this
+      · symm
+        apply List.drop_of_length_le
+        simp only [List.length_append] at hple ⊢
+        have := hres b bs rfl
+        omega
       · intro hw
         obtain ⟨j, hj, hPm⟩ := hpw hw
         refine ⟨j + 1, by simpa using hj, ?_⟩
